@@ -315,11 +315,21 @@ def evaluate(ctx, ident, arrays, cfgs):
 
 def run(ctx):
     ident, arrays = gen(ctx)
-    return evaluate(ctx, ident, arrays, ["dbg", "rel", "isa"])
+    corr = evaluate(ctx, ident, arrays, ["dbg", "rel", "isa"])
+    from harness import narrowlib
+    narrowlib.part(ctx, corr, "nn", "nn_array")      # narrow index types on axes longer than half their range
+    return corr
 
 
 def replay(ctx):
     c = ctx.replay["case"]
+    if c and c.get("op") == "narrow":
+        from vlib.framework import Corr as _Corr
+        from harness import narrowlib
+        corr = _Corr()
+        corr.add_obl("nn_array")
+        narrowlib.part(ctx, corr, "nn", "nn_array", cfgs=(c.get("cfg", "dbg"),))
+        return corr
     prec = c["prec"]
     xs = [frombits(prec, b) for b in c["coord"]]
     cfg = [c.get("cfg") or "dbg"]
